@@ -220,7 +220,7 @@ def run_object(case, all_sync):
                 else:
                     await asyncio.sleep(g)
             n0 = len(log)
-            rec = dict(t0=clk.now)
+            rec = dict(t0=clk.now, n0=n0)
             pats = pats_real(op, encoding)
             # a search window given with the call (0 = None) overrides the object's own; absent: the object's
             wkw = {'searchwindowsize': (op['W'] or None)} if 'W' in op else {}
@@ -257,8 +257,9 @@ def run_object(case, all_sync):
             rec['t1'] = clk.now
             rec.update(observe(p, rec['out']))
             rec['nev'] = len(log) - n0
-            if rec['out'] == 'TIMEOUT' or rec['after'] == 'TIMEOUT':
-                log.append(['T', None, False])
+            if rec['out'] == 'TIMEOUT' or rec['after'] == 'TIMEOUT' or rec['out'] == 'CANCELLED':
+                log.append(['T', None, False])       # where the call's wait ended without a result (its own timer, or the caller gave up)
+            rec['n1'] = len(log)
             recs.append(rec)
             if rec['out'].startswith(('EXC', 'BLOCKED')):
                 break
@@ -363,9 +364,15 @@ def compare_twin(case, a, b):
 
 def model_line(case, run):
     toks = ['AY']
-    for op in case['ops'][:len(run['recs'])]:
+    prev_end = 0
+    for op, rec in zip(case['ops'], run['recs']):
+        # loop events between two calls were delivered with nobody waiting (possible after a call its caller gave up)
+        for ev in run['log'][prev_end:rec.get('n0', prev_end)]:
+            if ev[0] == 'd':
+                toks.append('i')
+        prev_end = rec.get('n1', prev_end)
         pats = '+'.join(X.pat_tok(q, op) for q in op['pats']) if op['pats'] else '_'
-        toks.append('%s%s:%d:%s' % ('a' if op['mode'] in ('a', 'c') else '', op['k'], (op['W'] if 'W' in op else (case.get('objW') or 0)), pats))
+        toks.append('%s%s:%d:%s' % ({'a': 'a', 'c': 'c', 's': ''}[op['mode']], op['k'], (op['W'] if 'W' in op else (case.get('objW') or 0)), pats))
     toks.append('@')
     eof_seen = False
     for ev in run['log']:
@@ -404,7 +411,7 @@ def canon_real(case, run):
 def compare_model(case, run, mline):
     parts = mline.split(' | ')
     real = canon_real(case, run)
-    mo = parts[:-1]
+    mo = [x for x in parts[:-1] if x not in ('idle', 'idle-none')]
     for n, (m, r) in enumerate(zip(mo, real)):
         if m != r:
             return 'call %d: model %r real %r' % (n, m, r)
@@ -603,19 +610,23 @@ def run(ctx):
         for c, (a, b), ml in zip(cases, runs, mouts):
             if any(op['mode'] == 'a' and op['T'] == 0 for op in c['ops']):
                 continue          # outside the modelled domain (known finding a)
-            if any(op['mode'] == 'c' for op in c['ops']):
-                continue          # a cancelled call is not an event of the model; judged against the twin
+            has_cancel = any(op['mode'] == 'c' for op in c['ops'])
+            if has_cancel and any(ev[0] in ('E', 'L') for ev in a['log']):
+                continue          # an end of stream on a transport left reading: the known finding (b), outside the model
             if c.get('encoding'):
                 continue          # unicode mode: judged against the blocking twin (the codec is outside this model; C07)
-            if any(ev[0] == 'd' and ev[2] for ev in a['log']):
-                continue          # data delivered in the done-window: not part of a call's event list
+            if any(ev[0] == 'd' and ev[2] for r_ in a['recs'] for ev in a['log'][r_['n0']:r_['n1']]):
+                continue          # data delivered in the done-window of a call (after its future was done, before the pause took effect)
             dm = compare_model(c, a, ml)
+            ctx.cov['histories_through_model'] = ctx.cov.get('histories_through_model', 0) + 1
+            if has_cancel:
+                ctx.cov['abandoned_call_histories_through_model'] = ctx.cov.get('abandoned_call_histories_through_model', 0) + 1
             if dm:
                 ctx.broken.append('correspondence async model vs pexpect._async on %s: %s' % (json.dumps(c)[:300], dm))
                 break
             # transport paused while idle
             fin = ml.split(' | ')[-1]
-            if a['fin'].get('paused') is False and not a['fin'].get('closed'):
+            if a['fin'].get('paused') is False and not a['fin'].get('closed') and not has_cancel:
                 common.report(ctx, 'async/not-paused-when-idle', 'the read transport is still reading after the last call returned', dict(case=c))
                 break
     except common.ModelUnavailable as e:
